@@ -119,14 +119,17 @@ Fixpoint scan_str (t : text) : option nat :=
 
 (* MLSTRING_LIT body, [t] the text after the opening three quotes: newlines
    are allowed, the close is three quotes *)
+Definition starts2 (r : text) : bool :=      (* two more quotes follow *)
+  match r with
+  | q2 :: q3 :: _ => Ascii.eqb q2 c_quote && Ascii.eqb q3 c_quote
+  | _ => false
+  end.
+
 Fixpoint scan_ml (t : text) : option nat :=
   match t with
   | [] => None
   | c :: r =>
-      if (match t with
-          | q1 :: q2 :: q3 :: _ => Ascii.eqb q1 c_quote && Ascii.eqb q2 c_quote && Ascii.eqb q3 c_quote
-          | _ => false
-          end) then Some O
+      if Ascii.eqb c c_quote && starts2 r then Some O
       else if Ascii.eqb c c_bslash then
         match r with
         | c2 :: r2 =>
@@ -148,33 +151,25 @@ Definition lex_string (r : text) : option (token * nat) :=
                | Some n => Some (TStr false (firstn n r), S n)
                | None => None
                end in
-  match r with
-  | q1 :: q2 :: r3 =>
-      if Ascii.eqb q1 c_quote && Ascii.eqb q2 c_quote then
-        match scan_ml r3 with
-        | Some n => Some (TStr true (firstn n r3), (2 + n + 3)%nat)
-        | None => short
-        end
-      else short
-  | _ => short
-  end.
+  if starts2 r then
+    match scan_ml (skipn 2 r) with
+    | Some n => Some (TStr true (firstn n (skipn 2 r)), (2 + n + 3)%nat)
+    | None => short
+    end
+  else short.
 
 (* FLOAT_LIT : -?D+.D*(EXP)? | -?D*.D+(EXP)? | -?D+EXP   then INT_LIT : -?D+
-   (first alternative that matches); result = token and its length *)
-Definition scan_num (t : text) : option (token * nat) :=
-  let sg := match t with
-            | c :: _ => if Ascii.eqb c c_minus then 1%nat else 0%nat
-            | [] => 0%nat
-            end in
-  let t1 := strip_minus t in
+   (first alternative that matches), on the text after the optional minus;
+   result = which terminal and how many characters *)
+Definition scan_unsigned (t1 : text) : option (nkind * nat) :=
   let n := count_digits t1 in
   let t2 := skipn n t1 in
   let nodot :=
     match n with
     | O => None
     | _ => match scan_exp t2 with
-           | Some x => Some (TFloat (firstn (sg + n + x) t), (sg + n + x)%nat)
-           | None => Some (TInt (firstn (sg + n) t), (sg + n)%nat)
+           | Some x => Some (KFloat, (n + x)%nat)
+           | None => Some (KInt, n)
            end
     end in
   match t2 with
@@ -185,11 +180,23 @@ Definition scan_num (t : text) : option (token * nat) :=
         | O, O => None
         | _, _ =>
             let x := match scan_exp (skipn k t3) with Some x => x | None => O end in
-            Some (TFloat (firstn (sg + n + 1 + k + x) t), (sg + n + 1 + k + x)%nat)
+            Some (KFloat, (n + 1 + k + x)%nat)
         end
       else nodot
   | [] => nodot
   end.
+
+Definition scan_num (t : text) : option (nkind * nat) :=
+  match t with
+  | c :: r =>
+      if Ascii.eqb c c_minus
+      then match scan_unsigned r with Some (k, n) => Some (k, S n) | None => None end
+      else scan_unsigned t
+  | [] => None
+  end.
+
+Definition num_tok (k : nkind) (t : text) : token :=
+  match k with KInt => TInt t | KFloat => TFloat t end.
 
 (* characters no terminal of cel.lark can start with: lark raises
    UnexpectedCharacters, i.e. a parse error *)
@@ -232,9 +239,9 @@ Fixpoint lex (skip : nat) (t : text) {struct t} : lexres :=
                   end
                 else if is_digit c || Ascii.eqb c c_minus || Ascii.eqb c c_dot then
                   match scan_num (c :: r) with
-                  | Some (tok, len) =>
+                  | Some (k, len) =>
                       if bad_follow (nth_error (c :: r) len) then LexOOF
-                      else lcons tok (lex (len - 1) r)
+                      else lcons (num_tok k (firstn len (c :: r))) (lex (len - 1) r)
                   | None => LexOOF
                   end
                 else if unlexable c then LexErr
